@@ -12,6 +12,7 @@ Line protocol of C05 (a case = one `cfg` line followed by op lines; the state is
   exec h=<n> <name>=<id> ... execute
   lin <all|sub> <1|0> h=<n> <name>=<id> ...   linearize(compute_all_jacobians, execute)
   reopen | clear
+  peek h=<n> <name>=<id> ...  read-only `cache[input_data]` (answer `P <outputs> > <jacobian>`, state unchanged)
 
 The body is the polynomial family  out_i = A_i . x + b_i + q_i * |x|^2  (x = all inputs concatenated).
 Answer: `<result> | run=<n> jac=<n> | len=<n|_> | <entries>` (result: ok, E:.., D name=vals;.., J o.i=row|row;..).
@@ -136,11 +137,22 @@ def showOut (cfg : Cfg) : Out → String
   | .data o => "D " ++ showVals cfg.outNames o
   | .jac j => "J " ++ showJac j
 
+/-- `cache.last_entry.inputs`. -/
+def lastInputs (cfg : Cfg) (st : State) : Vals :=
+  match cfg.kind with
+  | .none => []
+  | .simple => derefs st.heap st.simple.inputs
+  | _ =>
+    if st.full.entries.isEmpty then [] else
+    match st.full.entry? st.full.last with
+    | some e => derefs st.heap e.inputs
+    | none => []
+
 def showState (cfg : Cfg) (st : State) : String :=
   let len := match cacheLen cfg st with | some n => toString n | none => "_"
   let es := (allEntries cfg st).map (fun (i, o, j) =>
     "{" ++ showVals cfg.inNames i ++ " > " ++ showVals cfg.outNames o ++ " > " ++ showJac j ++ "}")
-  s!"run={st.nRun} jac={st.nJac} | len={len} | {" ".intercalate es}"
+  s!"run={st.nRun} jac={st.nJac} | len={len} last={showVals cfg.inNames (lastInputs cfg st)} | {" ".intercalate es}"
 
 structure DState where
   cur : Option (Cfg × Poly × State) := none
@@ -155,6 +167,17 @@ def dstep (ds : DState) (line : String) : DState × String :=
     match ds.cur with
     | none => (ds, "no-cfg")
     | some (cfg, p, st) =>
+      match toks with
+      | "peek" :: rest =>
+        (match parseArgs rest with
+         | none => (ds, "bad-op")
+         | some (h, args) =>
+           match prepare cfg st args with
+           | none => (ds, "E:invalid")
+           | some xs =>
+             let g := cacheGet cfg st (xs.map (·.1)) h
+             (ds, "P " ++ showVals cfg.outNames (derefs st.heap g.1) ++ " > " ++ showJac g.2))
+      | _ =>
       match parseOp toks with
       | none => (ds, "bad-op")
       | some op =>
